@@ -45,7 +45,7 @@ Fixpoint init_state (W : wsys) (inits : list (string * (bool * expr))) (st : gst
   match inits with
   | [] => Ok st
   | (x, (is_in, e)) :: more =>
-      let e' := subst [] None s0 [] e in
+      let e' := subst [] None [] s0 [] e in
       do v <- eval (w_dtla W) EVAL_FUEL (env_of W st VDefault) e';
       let '(k, rnd') := next_choice rnd in
       if is_in then
@@ -91,54 +91,59 @@ Fixpoint take {A} (n : nat) (xs : list A) : list A * list A :=
   | S k, x :: r => let '(a, b) := take k r in (x :: a, b)
   end.
 
-(* one walk of at most n steps: (first mismatch if any, labels whose step committed in order) *)
-Fixpoint walk (n : nat) (W : wsys) (st : gstate) (rnd : list nat) (trace : list string) : option string * list string :=
+(* one walk of at most n steps, following the TLA+ model's successor: (first mismatch of each label
+   met, labels whose step committed in order) *)
+Fixpoint walk (n : nat) (W : wsys) (st : gstate) (rnd : list nat) (trace : list string)
+         (bad : list (string * string)) : list (string * string) * list string :=
   match n with
-  | O => (None, rev trace)
+  | O => (rev bad, rev trace)
   | S n' =>
       let '(rp, rnd1) := next_choice rnd in
       let '(rs, rnd2) := next_choice rnd1 in
       let '(ks, rnd3) := take 4 rnd2 in
       match nth_mod (w_procs W) rp with
-      | None => (None, rev trace)
+      | None => (rev bad, rev trace)
       | Some (proc, (oset, table)) =>
           let selfs := match oset with
                        | None => Ok [VDefault]
-                       | Some s => do v <- eval (w_dtla W) EVAL_FUEL (env_of W st VDefault) (subst [] None s0 [] s); as_set v
+                       | Some s => do v <- eval (w_dtla W) EVAL_FUEL (env_of W st VDefault) (subst [] None [] s0 [] s); as_set v
                        end in
           match selfs with
-          | Err m => (Some ("#@#WALKERROR process set of " ++ proc ++ ": " ++ m ++ " #@#END"), rev trace)
+          | Err m => (rev (("", "#@#WALKERROR process set of " ++ proc ++ ": " ++ m ++ " #@#END") :: bad), rev trace)
           | Ok ids =>
               match nth_mod ids rs with
-              | None => walk n' W st rnd3 trace
+              | None => walk n' W st rnd3 trace bad
               | Some self =>
                   let r := env_of W st self in
                   match e_loc r "pc" with
                   | VStr lbl =>
                       match lookup lbl table with
-                      | None => walk n' W st rnd3 trace      (* Done / a label of another process sharing the id *)
+                      | None => walk n' W st rnd3 trace bad     (* Done / a label of another process sharing the id *)
                       | Some (gt, tt0) =>
                           let og := run (w_dgo W) EVAL_FUEL gt r ks in
                           let ot := run (w_dtla W) EVAL_FUEL tt0 r ks in
-                          if outcome_eqb og ot then
-                            match ot with
-                            | OCommit g l _ => walk n' W (apply_commit st self g l) rnd3 ((proc ++ "." ++ lbl) :: trace)
-                            | _ => walk n' W st rnd3 trace
-                            end
-                          else (Some (describe proc lbl self st ks og ot), rev trace)
+                          let key := proc ++ "." ++ lbl in
+                          let bad' := if outcome_eqb og ot then bad
+                                      else match lookup key bad with
+                                           | Some _ => bad
+                                           | None => (key, describe proc lbl self st ks og ot) :: bad end in
+                          match ot with
+                          | OCommit g l _ => walk n' W (apply_commit st self g l) rnd3 (key :: trace) bad'
+                          | _ => walk n' W st rnd3 trace bad'
+                          end
                       end
-                  | _ => walk n' W st rnd3 trace
+                  | _ => walk n' W st rnd3 trace bad
                   end
               end
           end
       end
   end.
 
-Definition one_walk (n : nat) (W : wsys) (rnd : list nat) : option string * list string :=
+Definition one_walk (n : nat) (W : wsys) (rnd : list nat) : list (string * string) * list string :=
   let '(r0, rnd') := take 8 rnd in
   match init_state W (w_init W) [] r0 with
-  | Ok st => walk n W st rnd' []
-  | Err m => (Some ("#@#WALKERROR Init: " ++ m ++ " #@#END"), [])
+  | Ok st => walk n W st rnd' [] []
+  | Err m => ([("", "#@#WALKERROR Init: " ++ m ++ " #@#END")], [])
   end.
 
 (* replay of one stored distinguishing case: both outcomes on the given state *)
